@@ -42,6 +42,7 @@ Section PasswordThm.
   Proof.
     intros st ps o H. destruct o.
     - destruct H as [Hc Hs]. unfold sim. simpl. rewrite Hc, Hs. split; [|reflexivity]. now destruct u.
+    - exact H.
     - destruct H as [Hc Hs]. unfold sim. simpl. rewrite Hc. split; reflexivity.
     - now apply load_sim.
     - destruct H as [Hc Hs]. unfold sim. simpl. destruct keep; [rewrite Hc|]; split; reflexivity.
@@ -92,6 +93,31 @@ Section PasswordThm.
   Definition upd (a : api_op) (u : user) (d : string) : string :=
     match a with APatch s => last_in s u d | AFactoryReset => "" | _ => d end.
 
+  (* a refused change changes nothing: neither the hashes nor the persisted record *)
+  Theorem refused_change_no_change : forall st u pw, step st (OSetRefused u pw) = st.
+  Proof. reflexivity. Qed.
+
+  Theorem refused_patch_no_change :
+    forall ops u pw, run init_state (ops ++ api_ops (APatchRefused u pw)) = run init_state ops.
+  Proof. intros. unfold Model.run. rewrite fold_left_app. reflexivity. Qed.
+
+  (* PUT /device (reset preserving the hashes, load, save) keeps the three hashes and persists them *)
+  Theorem put_keeps_hashes :
+    forall st a n v,
+      cur st = {| h_admin := Some a; h_normal := Some n; h_viewonly := Some v |} -> a <> "" -> n <> "" -> v <> "" ->
+      let st' := run st (api_ops APut) in cur st' = cur st /\ store st' = Some (cur st).
+  Proof.
+    intros st a n v Hc Ha Hn Hv. simpl. unfold load, Model.load_one, falsy_hash. simpl. rewrite Hc. simpl.
+    apply String.eqb_neq in Ha, Hn, Hv. rewrite Ha, Hn, Hv. split; reflexivity.
+  Qed.
+
+  (* the hub's hash for a slave is the hash of the slave's current admin password after any forwarded changes *)
+  Theorem slave_hash_tracks :
+    forall sops pw0, hub_slave_hash sha256hex pw0 sops = sha256hex (slave_password pw0 sops).
+  Proof.
+    unfold hub_slave_hash. induction sops as [|[q|] r IH]; intros pw0; simpl; [reflexivity| |]; apply IH.
+  Qed.
+
   Lemma api_stable :
     forall o ps a n v, stable ps a n v -> stable (prun ps (api_ops o)) (upd o Admin a) (upd o Normal n) (upd o Viewonly v).
   Proof.
@@ -99,6 +125,7 @@ Section PasswordThm.
     - (* PATCH *)
       unfold prun. rewrite fold_left_app. fold (prun ps (map (fun '(u, pw) => OSet u pw) l)).
       destruct (sets_fold l ps a n v Hc) as [Hc' _]. simpl. split; [exact Hc'|left; reflexivity].
+    - (* refused PATCH *) split; assumption.
     - (* PUT: reset keeping the passwords, load, save *)
       unfold all_set in Hc. split; [|left; reflexivity]. simpl. rewrite Hc. reflexivity.
     - (* factory reset and the reboot it schedules *)
